@@ -93,6 +93,7 @@ struct Bus {
 	std::function<void(UpFrame &)> on_processed;      // frame known to be fully processed by the receiver
 	std::function<void(UpFrame &)> on_delivered;      // last byte of frame just handed to the receiver
 	std::vector<std::array<uint64_t, 3>> type_dup_once;          // (answer type, n, same/next sequence number): the n-th answer of that type is sent twice
+	bool restart_count_real = false;
 	bool overtakable_next = false;
 	std::vector<std::array<uint64_t, 3>> type_delay_once;        // (answer type, n, extra us): only the n-th answer of that type is late, so the next one overtakes it
 	std::function<bool(Node &, const ref::Msg &)> on_request;   // return true to suppress default answer
@@ -291,7 +292,9 @@ struct Bus {
 				if (n.enum_dirty) {
 					// the table changed while it was being read: the read-out is void and has to be restarted by the host
 					n.enum_dirty = false; n.enum_active = false;
-					set(MSG_NODETAB_COUNT, {0}); fired["nodetab-restart"]++;
+					// (the signal carries 0, or - some interfaces - the size of the new table, which may equal the old one)
+					int cnt = 1; for (int c : n.children) if (nodes[(size_t) c].present) cnt++;
+					set(MSG_NODETAB_COUNT, {(uint8_t) (restart_count_real ? cnt : 0)}); fired["nodetab-restart"]++;
 					break;
 				}
 				if (!n.enum_active) { set(MSG_NODE_NA, {255}); break; }
